@@ -15,7 +15,7 @@ and read with the strict iterator and with one generated non-empty set of tolera
 Non-trivial: some master in U is the last child of a master that is also in U (its End is caused by a higher-level element, an enclosing known-size extent or EOF); distinct by (document bytes).";
 
 pub const ASSUMPTIONS: &[&str] = &[
-    "excluded by construction and counted: subsets that put unknown size on a master whose declared path has a placeholder, or directly before a global element (the inherently ambiguous case the statement excludes)",
+    "excluded by construction and counted: subsets that put unknown size on a master whose declared path has a placeholder where 'sibling' would have to be decided for it (something follows it at its own level, or an element of the identical path / of an ancestor's type lies inside it), or on a master directly before a global element (the inherently ambiguous case the statement excludes)",
 ];
 
 fn set_subset(forest: &mut [Node], mask: u64, widths: &[u8]) {
@@ -45,9 +45,39 @@ fn nested_last_child(forest: &[Node]) -> bool {
     })
 }
 
+/// a fixed specification in which a master may contain itself through intermediate masters (a folder holds entries, an entry holds
+/// attributes — and folders again): the shape in which "a new instance of one of its ancestors" is a grandparent or higher
+fn recursive_spec() -> SpecChoice {
+    use PathPart::{Global as G, Id};
+    let folder = vec![Id(0x81), G((Some(0), None))];
+    let mut entry = folder.clone();
+    entry.push(Id(0x82));
+    let mut attrs = entry.clone();
+    attrs.push(Id(0x83));
+    let mut mode = attrs.clone();
+    mode.push(Id(0x84));
+    let s = std::rc::Rc::new(SpecTable::new(vec![
+        Elem { id: 0x81, ty: Ty::Master, path: vec![], name: "Root".into() },
+        Elem { id: 0x82, ty: Ty::Master, path: folder, name: "Folder".into() },
+        Elem { id: 0x83, ty: Ty::Master, path: entry.clone(), name: "Entry".into() },
+        Elem { id: 0x84, ty: Ty::Master, path: attrs, name: "Attrs".into() },
+        Elem { id: 0x85, ty: Ty::U, path: mode, name: "Mode".into() },
+        Elem { id: 0x86, ty: Ty::S, path: entry, name: "Name".into() },
+        Elem { id: 0x87, ty: Ty::U, path: vec![Id(0x81)], name: "Count".into() },
+        Elem { id: 0xEC, ty: Ty::B, path: vec![G((None, None))], name: "Void".into() },
+        Elem { id: 0xBF, ty: Ty::B, path: vec![G((Some(1), None))], name: "Crc32".into() },
+    ]));
+    crate::dynspec::set_current(s.clone());
+    SpecChoice::Dyn(s)
+}
+
 fn stage(i: &Input, c: &mut Case) -> Result<(), String> {
     let mut t = Tape::new(i.tape());
-    let spec = gen_spec_choice(&mut t, SpecOpts::default());
+    // one case in five uses the recursive specification; the choice hangs on the LAST tape word, so that every tape recorded before
+    // this choice existed keeps its meaning (the two pinned ones end in words that select the generated specification)
+    let recursive = i.tape().last().map(|w| w % 5 == 1).unwrap_or(false);
+    let spec = if recursive { recursive_spec() } else { gen_spec_choice(&mut t, SpecOpts::default()) };
+    c.label_if(recursive, "spec_recursive_template");
     let to = TreeOpts { max_nodes: 28, deep: true, max_children: 4, pay: PayOpts { big_left: 0, huge: false, max_small: 12 }, ..TreeOpts::default() };
     let mut forest = gen_forest(&mut t, spec.table(), to);
     let m = forest.iter().map(|n| n.count_masters()).sum::<usize>();
@@ -132,6 +162,7 @@ pub fn run(rc: &mut RunCtx) {
     rc.run_pt(STAGES[0], rc.pick(80_000, 500_000), (96, 400));
     rc.require_label("subsets", "all_subsets", 200_000);
     rc.require_label("subsets", "depth3plus", 300_000);
+    rc.require_label("subsets", "spec_recursive_template", 5_000);
     if !rc.quick() {
         rc.run_fuzz(Some(STAGES[0]), 250);
     }
